@@ -428,6 +428,12 @@ func wUnary(cc grpc.ClientConnInterface, ctx context.Context, f func(srv *wGRPCS
 	if err != nil {
 		return nil, err
 	}
+	if wNetDelay > 0 { // the request takes time to travel: the peer may die meanwhile
+		vSleepUntil(vNow() + wNetDelay)
+		if wKeyDead(key) {
+			return nil, wErrUnavailable
+		}
+	}
 	type res struct {
 		v   any
 		err error
